@@ -548,3 +548,30 @@ func withAnon(fn *ssa.Function) []*ssa.Function {
 	}
 	return out
 }
+
+// shallowOrigins walks through conversions, arithmetic and tuple extraction only, stopping at calls, phis, loads.
+func shallowOrigins(v ssa.Value) map[ssa.Value]bool {
+	out := map[ssa.Value]bool{}
+	var walk func(v ssa.Value)
+	walk = func(v ssa.Value) {
+		if v == nil || out[v] {
+			return
+		}
+		switch t := v.(type) {
+		case *ssa.Convert:
+			walk(t.X)
+		case *ssa.ChangeType:
+			walk(t.X)
+		case *ssa.BinOp:
+			walk(t.X)
+			walk(t.Y)
+		case *ssa.Extract:
+			out[v] = true
+			walk(t.Tuple)
+		default:
+			out[v] = true
+		}
+	}
+	walk(v)
+	return out
+}
